@@ -380,3 +380,36 @@ def check_codecs_roundtrip(ctx, oid):
     R.check(oid, "ROUND-TRIP", fp, "addr: parse(build(addresses)) for counts %s" % icounts, not bada,
             "parse_addr_payload(addr_payload(...)) differs for %s entries: %s" % (bada[0][0] if bada else "", bada[0][1:] if bada else ""),
             example=("%d address entries" % bada[0][0]) if bada else None)
+
+
+def check_witness_reader(ctx, oid):
+    """decode_script(serialised stack || rest, witness=True[, parse=True]) = (items | the stack's own bytes, rest)."""
+    R = ctx.R
+    ev = ctx.evaluator(max_depth=12)
+    fs, fd = ctx.fn("bits.script.utils.script"), ctx.fn("bits.script.utils.decode_script")
+    stacks = [[], [0], [1], [71, 33], [0, 71, 71, 105], [252], [253], [254], [255, 256], [65535], [65536], [0, 0], [1] * 5]
+    if ctx.thorough:
+        stacks += [[L] for L in range(0, 300)] + [[1] * k for k in range(6, 21)] + [[253, 0, 1, 65536]]
+    has_parse = "parse" in [a.arg for a in fd.node.args.args]
+    bad = []
+    for st in stacks:
+        items = [tm.hexs(tm.sized("w%d" % i, L)) if L else "" for i, L in enumerate(st)]
+        k, b = rules.outcome(ev.run(fs, {"args": list(items), "witness": True}, use_defaults=True))
+        if k != "return":
+            bad.append((st, "script(witness=True) is %s" % k))
+            continue
+        for rest in (b"", tm.sized("rest", 9)):
+            for parse in ((False, True) if has_parse else (False,)):
+                args = {fd.params()[0]: tm.cat([b, rest]), "witness": True}
+                if parse:
+                    args["parse"] = True
+                k2, v2 = rules.outcome(ev.run(fd, args, use_defaults=True))
+                want0 = b if parse else items
+                ok = k2 == "return" and isinstance(v2, (list, tuple)) and len(v2) == 2 and _same(v2[0], want0) and _same(v2[1], rest)
+                if not ok:
+                    bad.append((st, "parse=%s, %s trailing bytes: %s %s" % (parse, "no" if rest == b"" else 9, k2, tm.show(v2)[:160])))
+    R.check(oid, "ROUND-TRIP", fd, "witness stack reader inverts the writer for %d stacks (empty stack, empty items, items across 252/253/65535/65536), with and without trailing bytes%s" % (
+        len(stacks), ", decoded and parse=True forms" if has_parse else ""), not bad,
+            "decode_script(witness=True) does not return (items, remainder) for item lengths %s: %s" % (_short(bad[0][0]) if bad else "", bad[0][1] if bad else ""),
+            example=("a witness stack with item lengths %s" % _short(bad[0][0])) if bad else None)
+    R.floor(oid, len(stacks), 10, "witness_stacks")
